@@ -202,4 +202,19 @@ theorem foldl_max_spec (v : Int) (rest : List Int) :
         · exact Int.le_trans (Int.le_max_right _ _) hm
         · exact h2 x (List.mem_cons_of_mem _ hx)
 
+/-- a successful `mapM` into `Option` keeps the length -/
+theorem mapM_some_length {α β} (f : α → Option β) : ∀ (l : List α) (vs : List β), l.mapM f = some vs → vs.length = l.length
+  | [], vs, h => by simp at h; simp [← h]
+  | a :: l, vs, h => by
+    simp only [List.mapM_cons] at h
+    cases ha : f a with
+    | none => simp [ha] at h
+    | some b =>
+      cases hl : l.mapM f with
+      | none => simp [ha, hl] at h
+      | some ws =>
+        simp [ha, hl] at h
+        subst h
+        simp [mapM_some_length f l ws hl]
+
 end Mesa.ASet
